@@ -19,6 +19,10 @@ CTRACE_CFG = os.path.join(SPECS, "BatchingCollateTrace.cfg")
 DMOD = os.path.join(SPECS, "BatchingDir.tla")
 DTRACE_MOD = os.path.join(SPECS, "BatchingDirTrace.tla")
 DTRACE_CFG = os.path.join(SPECS, "BatchingDirTrace.cfg")
+DISTMOD = os.path.join(SPECS, "BatchingDist.tla")
+DISTTRACE_MOD = os.path.join(SPECS, "BatchingDistTrace.tla")
+DISTTRACE_CFG = os.path.join(SPECS, "BatchingDistTrace.cfg")
+DIST_ACTIONS = ["DoLConstruct", "DoBeginEpoch", "DoPull", "DoExhaust", "DoFlush", "DoFinish"]
 DIR_ACTIONS = ["DoOpen", "DoWrite", "HFeed", "HEmitFull", "HEndFeed", "HFlush", "HFinish"]
 BUCKET_ACTIONS = ["Feed", "DoEmitFull", "EndFeed", "DoFlush", "Finish"]
 NFILT = 2
@@ -26,37 +30,42 @@ NFILT = 2
 
 def run_design(ctx):
     t = ctx.tier
-    jobs = [("Batching/direct", MOD, "Batching_direct_%s.cfg" % t, BUCKET_ACTIONS),
-            ("Batching/lengths", MOD, "Batching_lengths_%s.cfg" % t, BUCKET_ACTIONS),
-            ("BatchingCollate", CMOD, "BatchingCollate_%s.cfg" % t, ["Collate"]),
-            ("BatchingDir", DMOD, "BatchingDir_%s.cfg" % t, DIR_ACTIONS)]
+    jobs = [("Batching/direct", MOD, "Batching_direct_%s.cfg" % t, BUCKET_ACTIONS, 8),
+            ("Batching/lengths", MOD, "Batching_lengths_%s.cfg" % t, BUCKET_ACTIONS, 8),
+            ("BatchingCollate", CMOD, "BatchingCollate_%s.cfg" % t, ["Collate"], 8),
+            ("BatchingDir", DMOD, "BatchingDir_%s.cfg" % t, DIR_ACTIONS, 8),
+            # utterances without frames / tokens (bucket assignment + machine; collation)
+            ("Batching/lengths0", MOD, "Batching_lengths0_%s.cfg" % t, BUCKET_ACTIONS, 2 if t == "quick" else 6),
+            ("BatchingCollate/zero", CMOD, "BatchingCollate_zero_%s.cfg" % t, ["Collate"], 2 if t == "quick" else 6),
+            # the loaders of the ranks of a torch.distributed job (DistLoader.tla reused, C14's clauses on top)
+            ("BatchingDist", DISTMOD, "BatchingDist_%s.cfg" % t, DIST_ACTIONS, 4 if t == "quick" else 8)]
     results, errs = {}, []
 
-    def job(name, mod, cfg):
+    def job(name, mod, cfg, _actions, workers):
         try:
-            results[name] = tlc.run(mod, os.path.join(SPECS, cfg), workers=8, timeout=3000)
+            results[name] = tlc.run(mod, os.path.join(SPECS, cfg), workers=workers, timeout=3000)
         except Exception as ex:
             errs.append(ex)
 
-    threads = [threading.Thread(target=job, args=j[:3]) for j in jobs]
+    threads = [threading.Thread(target=job, args=j) for j in jobs]
     for th in threads:
         th.start()
     for th in threads:
         th.join()
     if errs:
         raise errs[0]
-    for name, _, _, actions in jobs:
+    for name, _, _, actions, _ in jobs:
         tlc.require_ok(results[name], name)
         tlc.require_covered(results[name], actions, name)
         ctx.add_tlc(name, results[name])
     recs = []
-    for name, _, _, _ in jobs:
+    for name, _, _, _, _ in jobs:
         recs += results[name].records
-    out = dict(case=[], done=[], collate=[], window=[], hist=[])
+    out = dict(case=[], done=[], collate=[], window=[], hist=[], job=[], distinfo=[], info=[])
     for r in recs:
         out[r["what"]].append(r)
     for k, v in out.items():
-        if not v:
+        if not v and k != "info":
             raise MachineryError("design runs exported no %r records" % k)
     return out
 
@@ -256,7 +265,7 @@ def rows_first(t, batch_first):
     return t if batch_first else t.transpose(0, 1)
 
 
-def project_spect(batch, batch_first, has_alis, has_uttids, names=None):
+def project_spect(batch, batch_first, has_alis, has_uttids, names=None, hint_ids=None):
     """tuple from spect_seq_to_batch / SpectDataLoader -> abstract `out` record (BatchingCollate.Out)"""
     pad = _pad_idx()
     batch = list(batch)
@@ -270,7 +279,7 @@ def project_spect(batch, batch_first, has_alis, has_uttids, names=None):
     if uttids is not None:
         ids = [names[u] for u in uttids]
     else:
-        ids = [(r[0] // 100) if r and r[0] > 0 else -1 for r in frows]
+        ids = [(r[0] // 100) if r and r[0] > 0 else None for r in frows]
     out = dict(ids=ids, fsz=[int(x) for x in fsz], feats=frows, hasali=alis is not None, alis=[],
                hasref=refs is not None, rsz=[], refs=[])
     if alis is not None:
@@ -280,6 +289,16 @@ def project_spect(batch, batch_first, has_alis, has_uttids, names=None):
         refs = rows_first(refs, batch_first)
         out["rsz"] = [int(x) for x in rsz]
         out["refs"] = [[proj_tok(refs[a, r], pad) for r in range(refs.size(1))] for a in range(N)]
+    if uttids is None:
+        # a row without frames carries no provenance in its features: read it off the row's reference, and when
+        # that is empty / absent too fill from the ids known to be in the batch (as project_lang does)
+        for a in range(N):
+            if ids[a] is None and out["refs"] and out["refs"][a] and out["refs"][a][0] > 0:
+                ids[a] = out["refs"][a][0] // 100
+        if hint_ids is not None:
+            rest = [u for u in hint_ids if u not in ids]
+            ids = [u if u is not None else (rest.pop(0) if rest else -1) for u in ids]
+        out["ids"] = [-1 if u is None else u for u in ids]
     return out
 
 
